@@ -5,26 +5,34 @@
    in-memory transport that records every byte written and answers requests in arrival order with
    a reply derived from the request.
 
-   case input  [ kind ; logs ; calls ; conns ; panics ; [latency_ms; hooked] ; trace ]
+   case input  [ kind ; logs ; calls ; conns ; panics ; [latency_ms; hooked] ; trace ;
+                 [strict; failed; failed_without_error] ]
      kind   0 = Client (Modbus TCP framing), 1 = Client (RTU framing over net.Conn), 2 = SerialClient
      logs   one byte string per connection: everything written to it, in order
      calls  [g; k; request bytes; status; reply bytes]
             status 0 = reply received, 1 = error returned, 2 = the call panicked, 3 = never returned
-     conns  per connection [overlaps; midclose]: how often the library entered a call on the
+     conns  per connection, in the order they were dialled, [overlaps; midclose; closed]: how often the library entered a call on the
             transport object (Read / Write / Close / Flush / Set*Deadline) while another of its calls
             was inside, and how often Close arrived between the write of a request and the read of
-            its reply
+            its reply; whether the connection is closed after the final Close of the case
      panics number of recovered panics (callers and the Close/Connect goroutines)
      latency_ms  slow device: a reply is readable that long after its request (6 callers queue for
             the lock; the wait exceeds the client's write + read time-out, the exchange does not)
      hooked 1 = the client was given a recording ClientHooks object that is NOT goroutine-safe
      trace  its records in the order they were appended: [tag; bytes],
             tag 0 = BeforeWrite, 1 = AfterEachRead (n > 0), 2 = BeforeParse, 9 = overflow
+     strict 1 = nobody closes or reconnects during the case: every call has to be served
+     failed number of FAILING Connect calls made on the connected, shared client by a further
+            goroutine (dial fails on demand: plain error / cancelled context / error together with a
+            typed-nil conn); failed_without_error = how many of them returned nil
    outcome  ok [ frames on the wire all whole ; each caller got its own reply ; no panic ;
                  serialised = no overlapping transport calls, no Close inside an exchange ;
                  hooks_atomic = the trace is a concatenation of per-call blocks
                    [BeforeWrite req; AfterEachRead chunk*; BeforeParse reply], chunks = reply =
-                   the reply to req, completed blocks = the successful calls ]
+                   the reply to req, completed blocks = the successful calls ;
+                 connect_atomic = a failed Connect left the client as it was: it returned an error,
+                   the final Close closed the connection dialled last (the one the client must still
+                   hold), and in a strict case every call was served ]
             err [7] = the case did not finish (dead- or livelock): always a violation
 
    Which theorem a flag is the runtime face of (Properties/C14.v):
@@ -39,6 +47,13 @@
                  they are EUse events made while owning the mutex, by C14_mutual_exclusion the
                  caller is THE holder, and by C14_one_at_a_time nobody else takes a step (makes a
                  hook call) until the release: the calls of one request form one block
+     connect_atomic  in the wire model a Connect (failing or not) is a control call CCtl: it changes
+                 neither the wire nor any reply, so with control calls interleaved anywhere
+                 C14_every_caller_gets_own_reply and C14_wire_whole_frames_in_lock_order still give
+                 every caller its own reply (the model run below includes the failed Connects as
+                 control calls of one more caller); that a FAILED Connect must not assign conn is the
+                 part the skeleton sees (translator: a field assigned together with an error value,
+                 before the error check, is reported and fails the obligation)
      no panic / no hang: not a theorem of the wire model (the skeleton obligation excludes the
                  unlocked use of conn that leads to the nil dereference; C14_well_locked_sound:
                  complete executions end with the lock released)
@@ -166,11 +181,21 @@ Definition raw_own (kind : N) (calls : list ccall) : bool :=
 Fixpoint raw_serialised (conns : list val) : bool :=
   match conns with
   | [] => true
-  | VL [VI a; VI b] :: r => Z.eqb a 0 && Z.eqb b 0 && raw_serialised r
+  | VL [VI a; VI b; VI _] :: r => Z.eqb a 0 && Z.eqb b 0 && raw_serialised r
   | _ => false
   end.
 Definition raw_no_panic (panics : Z) (calls : list ccall) : bool :=
   Z.eqb panics 0 && forallb (fun c => negb (cc_bad c)) calls.
+
+(* a failed Connect left the client as it was *)
+Fixpoint last_closed (conns : list val) : bool :=
+  match conns with
+  | [] => false
+  | [VL [VI _; VI _; VI c]] => negb (Z.eqb c 0)
+  | _ :: r => last_closed r
+  end.
+Definition raw_connect (conns : list val) (strict noerr : Z) (calls : list ccall) : bool :=
+  last_closed conns && Z.eqb noerr 0 && (Z.eqb strict 0 || forallb cc_ok calls).
 
 (* ---- the hook trace ---- *)
 Fixpoint parse_trace (vs : list val) : option (list (Z * list N)) :=
@@ -249,9 +274,16 @@ Fixpoint run_observed (reply_of : frm -> frm) (dec : list N -> list frm) (sched 
       end
   end.
 
+(* whole calls of two schedules in turn (each element is the steps of one complete call) *)
+Fixpoint interleave (a b : list (list nat)) : list nat :=
+  match a with
+  | [] => List.concat b
+  | x :: a' => match b with [] => List.concat a | y :: b' => x ++ y ++ interleave a' b' end
+  end.
+
 Definition run_conc (args : list val) : val :=
   match args with
-  | [VI kind; VL logs; VL calls; VL _; VI _; VL _; VL _] =>
+  | [VI kind; VL logs; VL calls; VL _; VI _; VL _; VL _; VL [VI _; VI failed; VI _]] =>
       match parse_logs logs, parse_calls calls with
       | Some ls, Some cs =>
           let kd := Z.to_N kind in
@@ -259,14 +291,20 @@ Definition run_conc (args : list val) : val :=
           let dec := conc_decode kd in
           let order := flat_map dec ls in
           (* the recorded schedule: in wire order, the owner of each frame performs a whole call *)
-          let sched := flat_map (fun f => match owner_of oks f with
-                                          | Some g => repeat g (List.length f + 3)
-                                          | None => [] end) order in
+          let groups := map (fun f => match owner_of oks f with
+                                      | Some g => repeat g (List.length f + 3)
+                                      | None => [] end) order in
           (* then whoever has calls left finishes them, caller after caller *)
           let ng := S (nat_max (map cc_g oks)) in
           let tail := flat_map (fun g => flat_map (fun c => repeat g (List.length (cc_req c) + 3))
                                                    (filter (fun c => Nat.eqb (cc_g c) g) oks)) (seq 0 ng) in
-          let '(s, ser, ht) := run_observed (conc_reply kd) dec (sched ++ tail) (cinit (conc_reqs oks)) in
+          (* the failing Connect calls: control calls of one more caller, scheduled first in turn with
+             the recorded exchanges (where exactly does not matter: C14_every_caller_gets_own_reply) *)
+          let ctl := S (nat_max (map cc_g oks)) in
+          let nfail := Z.to_nat failed in
+          let reqs := fun g => if Nat.eqb g ctl then repeat CCtl nfail else conc_reqs oks g in
+          let sched := interleave (repeat [ctl; ctl; ctl] nfail) groups in
+          let '(s, ser, ht) := run_observed (conc_reply kd) dec (sched ++ tail) (cinit reqs) in
           let all_results := flat_map (fun g => results (callers s g)) (seq 0 ng) in
           let whole := match c_owner s with None => true | Some _ => false end &&
                        match conc_leftover kd (wire s) with [] => true | _ => false end &&
@@ -276,7 +314,8 @@ Definition run_conc (args : list val) : val :=
                                        | Some r => list_eqb r (conc_reply kd (fst x))
                                        | None => false end) all_results in
           let hooks := blocks_ok (S (List.length ht)) kd ht (map cc_req oks) in
-          v_ok [vbool whole; vbool own; vbool true; vbool ser; vbool hooks]
+          let connect := match pending (callers s ctl) with [] => true | _ => false end && own in
+          v_ok [vbool whole; vbool own; vbool true; vbool ser; vbool hooks; vbool connect]
       | _, _ => v_bad
       end
   | _ => v_bad
@@ -285,13 +324,14 @@ Definition run_conc (args : list val) : val :=
 Definition verdict_conc (p : N) (args : list val) (o : val) : N :=
   if p =? 14 then
     match args with
-    | [VI kind; VL logs; VL calls; VL conns; VI panics; VL [VI _; VI hooked]; VL trace] =>
+    | [VI kind; VL logs; VL calls; VL conns; VI panics; VL [VI _; VI hooked]; VL trace;
+       VL [VI strict; VI _; VI noerr]] =>
         match parse_logs logs, parse_calls calls with
         | Some ls, Some cs =>
             let kd := Z.to_N kind in
-            if val_eqb o (v_ok [vbool true; vbool true; vbool true; vbool true; vbool true]) &&
+            if val_eqb o (v_ok [vbool true; vbool true; vbool true; vbool true; vbool true; vbool true]) &&
                raw_whole kd ls cs && raw_own kd cs && raw_no_panic panics cs && raw_serialised conns &&
-               raw_hooks kd hooked trace cs
+               raw_hooks kd hooked trace cs && raw_connect conns strict noerr cs
             then HOLDS else VIOLATES
         | _, _ => VIOLATES
         end
